@@ -38,6 +38,25 @@ Theorem C10_roles_complementary_any_offer_setup :
                        answerer_role_for TransportMode_WebRtc (Some so) = Some (negb b).
 Proof. exact roles_complementary_any_offer_setup. Qed.
 
+(* where set_remote_description takes the a=setup value from (translated lookup order): the first
+   media-level value; the session-level one only if no media section carries any.  A description rustrtc
+   generated is read back as the value it emitted, and an offer with a session-level a=setup only (any
+   value) still gives complementary roles *)
+Theorem C10_setup_source : forall s media session,
+  first_setup (s :: media) session = Some s /\ first_setup [] session = session.
+Proof. exact setup_source. Qed.
+
+Theorem C10_described_setup_read_back : forall so n, 0 < n ->
+  first_setup (fst (described_setups so n)) (snd (described_setups so n)) = so.
+Proof. exact described_setup_read_back. Qed.
+
+Theorem C10_roles_complementary_session_level : forall so n, 0 < n ->
+  let ra := derive_role_desc TransportMode_WebRtc None [] (Some so) in
+  let d := described_setups (emitted_setup TransportMode_WebRtc Sdp_Answer ra) n in
+  let ro := derive_role_desc TransportMode_WebRtc None (fst d) (snd d) in
+  exists b, ro = Some b /\ ra = Some (negb b).
+Proof. exact roles_complementary_session_level. Qed.
+
 (* the outcome of one offer/answer round on every lattice point: complementary roles where DTLS runs,
    no DTLS attributes and no DTLS profile where it does not *)
 Theorem C10_negotiate_roles : forall p, In p lattice ->
@@ -93,6 +112,23 @@ Theorem C10_negotiated_profile_known :
             In c srtp_profile_codes.
 Proof. exact negotiated_profile_known. Qed.
 
+(* the translated tables agree with the registries (RFC 5764 / 7714 codes, RFC 4568 suite names, RFC 3711 /
+   7714 key and salt lengths) and with RFC 4145 / 8842 (offers say actpass; `active` peer => we are server) *)
+Theorem C10_tables_match_registries :
+  srtp_profile_of_code (Some 1) = SrtpProfile_Aes128Sha1_80 /\
+  srtp_profile_of_code (Some 2) = SrtpProfile_Aes128Sha1_32 /\
+  srtp_profile_of_code (Some 7) = SrtpProfile_AeadAes128Gcm /\
+  map_crypto_suite Suite_AES_CM_128_HMAC_SHA1_80 = Some SrtpProfile_Aes128Sha1_80 /\
+  map_crypto_suite Suite_AES_CM_128_HMAC_SHA1_32 = Some SrtpProfile_Aes128Sha1_32 /\
+  map_crypto_suite Suite_AEAD_AES_128_GCM = Some SrtpProfile_AeadAes128Gcm /\
+  (forall pr, srtp_key_len pr = 16) /\
+  srtp_salt_len SrtpProfile_Aes128Sha1_80 = 14 /\ srtp_salt_len SrtpProfile_Aes128Sha1_32 = 14 /\
+  srtp_salt_len SrtpProfile_AeadAes128Gcm = 12 /\
+  sdes_offer_suite = Suite_AES_CM_128_HMAC_SHA1_80 /\
+  setup_of_role Sdp_Offer None = Setup_actpass /\
+  setup_is_client Setup_active = false /\ setup_is_client Setup_passive = true.
+Proof. exact tables_match_registries. Qed.
+
 Theorem C10_profile_lens_agree : forall pr,
   dtls_key_len pr = srtp_key_len pr /\ dtls_salt_len pr = srtp_salt_len pr /\
   sdes_key_len pr = srtp_key_len pr /\ sdes_salt_len pr = srtp_salt_len pr.
@@ -122,8 +158,9 @@ Theorem C10_sdes_layout : forall pr k,
   Z.of_nat (length (k_tx_key c)) = srtp_key_len pr /\ Z.of_nat (length (k_tx_salt c)) = srtp_salt_len pr.
 Proof. exact sdes_layout. Qed.
 
-(* an answer never adds BUNDLE or rtcp-mux that the offer did not carry (any two configurations);
-   on the lattice both descriptions describe the same transport layout *)
+(* an answer never adds BUNDLE or rtcp-mux that the offer did not carry (any two configurations); on the
+   lattice -- where the two ends may differ in compatibility mode and rtcp-mux policy -- the answer keeps
+   exactly the offer's BUNDLE decision (after fix ca1331b) and has rtcp-mux iff both ends offer it *)
 Theorem C10_answer_within_offer : forall off ans x,
   (o_answer_bundle (negotiate_c off ans x) = true -> o_offer_bundle (negotiate_c off ans x) = true) /\
   (o_answer_mux (negotiate_c off ans x) = true -> o_offer_mux (negotiate_c off ans x) = true).
@@ -131,7 +168,8 @@ Proof. exact answer_within_offer. Qed.
 
 Theorem C10_lattice_transport_agreement : forall p, In p lattice ->
   o_answer_bundle (negotiate p) = o_offer_bundle (negotiate p) /\
-  o_answer_mux (negotiate p) = o_offer_mux (negotiate p).
+  o_answer_mux (negotiate p) =
+    (o_offer_mux (negotiate p) && local_offers_rtcp_mux (c_rtcp_mux (answerer_cfg p)) (c_compat (answerer_cfg p)))%bool.
 Proof. exact lattice_transport_agreement. Qed.
 
 (* listed finding C10-F2 (known_findings.d/C10.jsonl, class srtp_nonbundle_sections): in SDES-SRTP mode a
